@@ -245,7 +245,10 @@ private:
         size_t id = em.begin("entref");
         if (ok.empty() || r < 4) { static const char* pre[] = { "&lt;", "&amp;", "&gt;", "&quot;", "&apos;" }; em.puts(pre[rng.below(5)]); }
         else { em.put(U'&'); em.putu(ents[ok[rng.below(ok.size())]].name); em.put(U';'); }
-        em.end(id); return true;
+        em.end(id);
+        // character data that would complete a markup if the entity ended right after a '<' (a torn entity): "<" + "b/>" ...
+        if (!inAttr && rng.below(5) == 0) { static const char* tails[] = { "b/>", "!-- c -->", "?pi d?>" }; em.puts(tails[rng.below(3)]); }
+        return true;
     }
     void comment(Emitter& em) {
         size_t id = em.begin("comment"); em.puts("<!--");
